@@ -14,13 +14,24 @@
 (* length 0 or 1).  Events are plain records; the same records are emitted *)
 (* by TLC for replay on the code and logged by the code for validation.    *)
 (***************************************************************************)
-EXTENDS Trie, Abs
+EXTENDS Entry
 
 B2S(b) == IF b THEN <<1>> ELSE <<0>>
 Res(m, ret) == [m |-> m, ret |-> ret, pan |-> FALSE]
-ARes(E, ret) == [E |-> E, ret |-> ret]
+ARes(E, ret) == [E |-> E, ret |-> ret, pan |-> FALSE]
 
-Mutators  == {"Insert", "Remove", "RemoveKeepTree", "RemoveChildren", "Retain", "Clear"}
+Mutators  == {"Insert", "Remove", "RemoveKeepTree", "RemoveChildren", "Retain", "Clear", "Entry",
+              "GetMut", "LpmMut", "IterMut", "ValuesMut", "ChildrenMut"}
+\* value written through a mutable reference in the bounded model: 1 <-> 2
+Flip(v) == IF v = 1 THEN 2 ELSE 1
+\* write through the k-th yielded reference only (k > 0) or through all of them (k = 0),
+\* all references being held at the same time; slots = slots of the yielded entries in order
+WriteThrough(m, slots, k) ==
+    [m EXCEPT !.a = [i \in DOMAIN m.a |->
+        IF \E j \in 1..Len(slots) : slots[j] = i /\ (k = 0 \/ k = j)
+        THEN [m.a[i] EXCEPT !.v = Flip(@)] ELSE m.a[i]]]
+AWriteThrough(E, pvs, k) ==
+    {IF \E j \in 1..Len(pvs) : pvs[j].p.n = e.n /\ (k = 0 \/ k = j) THEN [e EXCEPT !.v = Flip(@)] ELSE e : e \in E}
 Observers == {"Get", "GetKV", "Contains", "Lpm", "Spm", "Cover", "Children", "Iter", "Len"}
 
 Apply(m, e) ==
@@ -29,8 +40,19 @@ Apply(m, e) ==
       [] e.a = "RemoveKeepTree" -> LET r == MapRemoveKeepTree(m, e.p) IN Res(r.m, r.ret)
       [] e.a = "RemoveChildren" -> Res(MapRemoveChildren(m, e.p), <<>>)
       [] e.a = "Clear"          -> Res(MapClear, <<>>)
-      [] e.a = "Retain"         -> LET r == MapRetain(m, e.keep, e.panicAt) IN
-                                   [m |-> r.m, ret |-> r.calls, pan |-> r.pan]
+      [] e.a = "Retain"         -> LET rr == MapRetain(m, e.keep, e.panicAt) IN
+                                   [m |-> rr.m, ret |-> rr.calls, pan |-> rr.pan]
+      [] e.a = "Entry"          -> EntrySession(m, e.p, e.ops)
+      [] e.a = "GetMut"         -> LET i == GetIdx(m, e.p) IN
+                                   IF i = 0 THEN Res(m, <<>>)
+                                   ELSE Res([m EXCEPT !.a[i].v = e.v], <<m.a[i].v>>)
+      [] e.a = "LpmMut"         -> LET i == LpmIdx(m, e.p) IN
+                                   IF i = 0 THEN Res(m, <<>>)
+                                   ELSE Res([m EXCEPT !.a[i].v = e.v], PV(m.a[i]))
+      [] e.a \in {"IterMut", "ValuesMut"} ->
+                                   Res(WriteThrough(m, IterSlots(m, <<1>>), e.k), IterAll(m))
+      [] e.a = "ChildrenMut"    -> LET st == ChildrenStart(m, e.p) IN
+                                   Res(WriteThrough(m, IterSlots(m, st), e.k), IterFrom(m, st))
       [] e.a = "Get"            -> Res(m, GetAlg(m, e.p))
       [] e.a = "GetKV"          -> Res(m, GetKVAlg(m, e.p))
       [] e.a = "Contains"       -> Res(m, B2S(ContainsAlg(m, e.p)))
@@ -44,9 +66,9 @@ Apply(m, e) ==
 \* `r` is the machine's result; it is consulted only where the abstract effect depends on
 \* an order the abstract map leaves open (which predicate calls preceded a panic).
 AbsApply(E, e, r) ==
-    CASE e.a = "Insert"         -> AInsert(E, e.p, e.v)
-      [] e.a = "Remove"         -> ARemove(E, e.p)
-      [] e.a = "RemoveKeepTree" -> ARemove(E, e.p)
+    CASE e.a = "Insert"         -> LET x == AInsert(E, e.p, e.v) IN ARes(x.E, x.ret)
+      [] e.a = "Remove"         -> LET x == ARemove(E, e.p) IN ARes(x.E, x.ret)
+      [] e.a = "RemoveKeepTree" -> LET x == ARemove(E, e.p) IN ARes(x.E, x.ret)
       [] e.a = "RemoveChildren" -> ARes(ARemoveChildren(E, e.p), <<>>)
       [] e.a = "Clear"          -> ARes({}, <<>>)
       [] e.a = "Retain"         ->
@@ -55,6 +77,12 @@ AbsApply(E, e, r) ==
             LET nAsked == IF r.pan THEN Len(r.ret) - 1 ELSE Len(r.ret)
                 asked  == {r.ret[i].n : i \in 1..nAsked}
             IN ARes({x \in E : x.n \in e.keep \/ x.n \notin asked}, SortedPV(E))
+      [] e.a = "Entry"          -> AEntrySession(E, e.p, e.ops)
+      [] e.a = "GetMut"         -> ARes(IF AHas(E, e.p.n) THEN ASetVal(E, e.p.n, e.v) ELSE E, AVal(E, e.p.n))
+      [] e.a = "LpmMut"         -> LET l == ALpm(E, e.p) IN
+                                   ARes(IF l = <<>> THEN E ELSE ASetVal(E, l[1].p.n, e.v), l)
+      [] e.a \in {"IterMut", "ValuesMut"} -> ARes(AWriteThrough(E, SortedPV(E), e.k), SortedPV(E))
+      [] e.a = "ChildrenMut"    -> ARes(AWriteThrough(E, AChildren(E, e.p), e.k), AChildren(E, e.p))
       [] e.a = "Get"            -> ARes(E, AVal(E, e.p.n))
       [] e.a = "GetKV"          -> ARes(E, AOptPV(E, e.p.n))
       [] e.a = "Contains"       -> ARes(E, B2S(AHas(E, e.p.n)))
@@ -72,11 +100,17 @@ RetAgrees(e, r, ar) ==
          /\ ~r.pan => /\ Len(r.ret) = Len(ar.ret)
                       /\ {r.ret[i] : i \in 1..Len(r.ret)} = {ar.ret[i].p : i \in 1..Len(ar.ret)}
          /\ r.pan => Len(r.ret) = e.panicAt
-    ELSE r.ret = ar.ret /\ ~r.pan
+    ELSE r.ret = ar.ret /\ r.pan = ar.pan
 
 \* events that reset the map to a new one (clear keeps no node but the root)
 IsClear(e) == e.a = "Clear" \/ (e.a = "RemoveChildren" /\ PLen(e.p) = 0)
 
 \* operations after which the shape must still be the canonical one (C15)
-CanonKeeping == {"Insert", "Remove", "Retain", "Clear"} \cup Observers
+\* (an Entry session keeps it unless it used o_remove, which is remove_keep_tree)
+ValueOnly == {"GetMut", "LpmMut", "IterMut", "ValuesMut", "ChildrenMut"}
+CanonKeeps(e) == \/ e.a \in {"Insert", "Remove", "Retain", "Clear"} \cup Observers \cup ValueOnly
+                 \/ e.a = "Entry" /\ \A i \in 1..Len(e.ops) : e.ops[i].o # "o_remove"
+\* events that must leave the shape untouched (C15): value-only operations
+ShapeKeeps(e) == \/ e.a \in {"RemoveKeepTree"} \cup Observers \cup ValueOnly
+                 \/ e.a = "Entry" /\ \A i \in 1..Len(e.ops) : e.ops[i].o \notin Consuming
 =============================================================================
